@@ -2,6 +2,7 @@ package main
 
 import (
 	"fmt"
+	"os"
 	"go/types"
 	"sort"
 	"strings"
@@ -131,10 +132,11 @@ type WriteSet struct {
 	locals map[localKey]bool
 	all    bool
 	unprot map[string]bool
+	ltaint map[string]bool // protected refs stored into some local inside the region
 }
 
 func newWriteSet() *WriteSet {
-	return &WriteSet{comps: map[string]bool{}, locals: map[localKey]bool{}, unprot: map[string]bool{}}
+	return &WriteSet{comps: map[string]bool{}, locals: map[localKey]bool{}, unprot: map[string]bool{}, ltaint: map[string]bool{}}
 }
 
 type Executor struct {
@@ -156,9 +158,23 @@ func (x *Executor) recordLocalWrite(k localKey) {
 		w.locals[k] = true
 	}
 }
+
+func (x *Executor) recordLocalTaint(v Val) {
+	for _, t := range unionTaint(v) {
+		for _, w := range x.wstack {
+			w.ltaint[t] = true
+		}
+	}
+}
+
 // escape: the objects a value may point into are no longer protected from unknown code.
 func (x *Executor) escape(st *State, vs ...Val) {
 	for _, t := range unionTaint(vs...) {
+		if os.Getenv("GOVC_DEBUG_ESCAPE") != "" {
+			if _, ok := st.fresh[t]; ok {
+				fmt.Fprintf(os.Stderr, "[escape] %s at %s\n", t, x.u.curPos)
+			}
+		}
 		delete(st.fresh, t)
 		for _, w := range x.wstack {
 			w.unprot[t] = true
@@ -182,7 +198,12 @@ func (x *Executor) heapGet(st *State, comp string) string {
 		panic("unknown heap component " + comp)
 	}
 	name := q(comp + "@0")
-	x.u.declare(name, sortS)
+	if !x.u.declSeen[name] {
+		x.u.declare(name, sortS)
+		if ax := x.u.heapTyping(comp, name); ax != "" {
+			x.u.decls = append(x.u.decls, "(assert "+ax+")")
+		}
+	}
 	return name
 }
 
@@ -195,6 +216,9 @@ func (x *Executor) heapSet(st *State, comp, term string) {
 func (x *Executor) heapHavoc(st *State, comp string) string {
 	sortS := x.u.heapSorts[comp]
 	n := x.u.freshConst(comp+"@h", sortS)
+	if ax := x.u.heapTyping(comp, n); ax != "" {
+		x.u.emit("(assert " + ax + ")")
+	}
 	st.heap[comp] = n
 	x.recordWrite(comp)
 	return n
